@@ -22,7 +22,23 @@ type c08Event struct {
 	Batch   []c08Event `json:"batch,omitempty"`
 }
 
-var c08VariantNames = []string{"clean", "syntax", "unused", "undefined", "defglobal", "useglobal", "require", "requiremissing", "annoclass", "useannoclass", "dupkey", "empty", "undefinedB", "requiremissingB", "useglobalB", "dofile", "annoclassdup", "annoclassdup", "annomixed", "usefilenameglobal"}
+var c08VariantNames = []string{"clean", "syntax", "unused", "undefined", "defglobal", "useglobal", "require", "requiremissing", "annoclass", "useannoclass", "dupkey", "empty", "undefinedB", "requiremissingB", "useglobalB", "dofile", "annoclassdup", "annoclassdup", "annomixed", "usefilenameglobal", "undefinedCase"}
+
+// twins: variants that differ from each other in one letter of a name only (same length; undefinedCase differs from
+// undefined in the case of one letter). A change from a variant to its twin keeps type and range of every diagnostic.
+var c08Twins = map[string][]string{
+	"undefined": {"undefinedB", "undefinedCase"}, "undefinedB": {"undefined", "undefinedCase"}, "undefinedCase": {"undefined", "undefinedB"},
+	"requiremissing": {"requiremissingB"}, "requiremissingB": {"requiremissing"},
+	"useglobal": {"useglobalB"}, "useglobalB": {"useglobal"},
+}
+
+// c08Next draws the next content variant of a file: one time in three the twin of the current one, if it has one.
+func c08Next(r *Rng, cur string) string {
+	if tw := c08Twins[cur]; len(tw) > 0 && r.Chance(1, 3) {
+		return tw[r.Intn(len(tw))]
+	}
+	return r.Pick(c08VariantNames)
+}
 
 // c08Variant renders content variant v for file index i of n files.
 func c08Variant(v string, i, n int, layout string) string {
@@ -69,6 +85,8 @@ func c08Variant(v string, i, n int, layout string) string {
 		return fmt.Sprintf("local t%d = { k = 1, k = 2 }\nprint(t%d == t%d)\n", i, i, i)
 	// the B variants differ from their twins only in a name of the same length: the diagnostics keep type and range and
 	// change their message only
+	case "undefinedCase":
+		return fmt.Sprintf("local a%d = %d\nprint(a%d, NowhereDefined%d)\n", i, i, i, i)
 	case "undefinedB":
 		return fmt.Sprintf("local a%d = %d\nprint(a%d, nowhereDefinex%d)\n", i, i, i, i)
 	case "requiremissingB":
@@ -164,7 +182,7 @@ func c08Gen(r *Rng, maxEvents int) c08History {
 			// external change of a file that is not open, or open and dirty (an open clean document would be reloaded by the editor)
 			if exists[i] && (!open[i] || dirty[i]) {
 				if !r.Chance(1, 4) { // one in four is a touch: announced as changed, bytes identical
-					onDisk[i] = r.Pick(c08VariantNames)
+					onDisk[i] = c08Next(r, onDisk[i])
 				}
 				return c08Event{Op: "change", File: rel, Variant: onDisk[i]}, true
 			}
@@ -180,8 +198,12 @@ func c08Gen(r *Rng, maxEvents int) c08History {
 			}
 		case k <= 9:
 			if open[i] {
+				cur := onDisk[i]
+				if dirty[i] {
+					cur = bufVar[i]
+				}
 				dirty[i] = true
-				bufVar[i] = r.Pick(c08VariantNames)
+				bufVar[i] = c08Next(r, cur)
 				return c08Event{Op: "edit", File: rel, Variant: bufVar[i]}, true
 			}
 		case k <= 11:
@@ -216,7 +238,7 @@ func c08Gen(r *Rng, maxEvents int) c08History {
 						} else if r.Chance(1, 3) {
 							touches = append(touches, c08Event{Op: "change", File: rl, Variant: onDisk[ii]}) // a touch: identical bytes
 						} else {
-							onDisk[ii] = r.Pick(c08VariantNames)
+							onDisk[ii] = c08Next(r, onDisk[ii])
 							bb = append(bb, c08Event{Op: "change", File: rl, Variant: onDisk[ii]})
 						}
 					}
